@@ -369,11 +369,16 @@ def run(run):
                         hs.append((e1, r1, e2, r2))
         scope = 'length <= 3 over %d symbols + all  request;edit;edit;request  and  create;request;delete;request  histories' % len(alpha)
     else:
-        for L in (2, 3, 4):
+        for L in (2, 3):
             for ops in itertools.product(ALPHABET, repeat=L):
                 if ops[-1] in REQUESTS and any(o in EDITS for o in ops):
                     hs.append(ops)
-        scope = 'length <= 4 over the full %d-symbol alphabet' % len(ALPHABET)
+        # length 4 over the reduced alphabet of the quick tier (the full one has grown to 45 symbols: 2.4 million histories)
+        alpha = QUICK_EDITS + QUICK_REQUESTS
+        for ops in itertools.product(alpha, repeat=4):
+            if ops[-1] in REQUESTS and any(o in EDITS for o in ops):
+                hs.append(ops)
+        scope = 'length <= 3 over the full %d-symbol alphabet, length 4 over the reduced %d-symbol alphabet' % (len(ALPHABET), len(alpha))
     # directed longer histories (both tiers): a package directory that gets its module before its __init__.py, asked in between;
     # one package named by a dotted import in one buffer and by a plain import in another
     imp = ['assist-import-line-children', 'assist-import-line-dotted', 'assist-dotted-import-buffer', 'assist-plain-import-buffer', 'assist-created-package']
